@@ -260,7 +260,7 @@ def run(ctx, only=None):
         plan += [(h, 2, False) for h in two[:4]] + [(h, 1, False) for h in two[4:]]
         plan += [("three-threads", 1, False)]
     else:
-        plan += [(h, 2, False) for h in two] + [(h, 3, False) for h in two[:2]]
+        plan += [(h, 2, False) for h in two] + [(h, 3, False) for h in two[:1]]
         plan += [("three-threads", 2, False), ("three-threads-warm", 1, False),
                  ("four-threads", 1, False)]
         plan += [(h, 1, True) for h in ("count-vs-count", "upto-vs-count", "own-construction")]
